@@ -139,7 +139,7 @@ def _coefficients(ck, order, M, sym_r):
         # the constructor no longer has the documented structure (exp of L dt, exp of L dt / 2, M contour points with
         # one quotient per integrand): decided by the replay against exact phi-functions
         ck.add(f"{tag}/structure", False, [], family=f"order{order}/constructor structure", replay=_coef_replay(order, M, None, 0),
-               meta={"exp_calls": len(calls), "expected": nbase + per * M, "quotients": len(quots)})
+               meta={"exp_calls": len(calls), "expected": nbase + per * M, "quotients": len(quots), "structural": True})
         return
     pre = [r > 0] if sym_r else []
     fam = f"order{order}"
@@ -359,7 +359,7 @@ def _stages(ck, order):
         nc = Nf(c)
         out = add(add(add(mul(E, uh), mul(P["_coef_4"], n0)), mul(P["_coef_5"], two(add(na, nb)))), mul(P["_coef_6"], nc))
     if state["i"] != len(code_calls):
-        ck.add(f"{tag}/number-of-nonlinear-evaluations", False, [], family=f"order{order}/stage-argument")
+        ck.add(f"{tag}/number-of-nonlinear-evaluations", False, [], family=f"order{order}/stage-argument", replay=_stage_replay(order, names), meta={"structural": True})
     for c in np.ndindex(shape):
         ck.add(f"{tag}/update/{'_'.join(map(str, c))}", sym.equal_goal(enc.outs[0][c], out[c]), [], family=f"order{order}/update", replay=_stage_replay(order, names))
     ck.add(f"{tag}/twin", sym.equal_goal(enc.outs[0][0, 0], sym.cadd(sym.asc(out[0, 0]), C(1))), [], family=f"order{order}/stage-twin", expect="sat")
